@@ -178,4 +178,30 @@ theorem lookupOpt_invertMap_of_get (m : StepMap) (p q : Id) (hinj : (m.values.fi
 theorem rat_div_swap (a b c d : Rat) : (a - b) / (c - d) = (b - a) / (d - c) := by
   rw [← neg_sub b a, ← neg_sub d c, neg_div_neg_eq]
 
+/-! ### scaling commutes with the placement -/
+
+theorem setAt_map {α β : Type} (f : α → β) (l : List α) (i : Nat) (a : α) :
+    (FMInput.setAt l i a).map f = FMInput.setAt (l.map f) i (f a) := by
+  apply List.ext_getElem?
+  intro j
+  by_cases hj : j < l.length
+  · rw [List.getElem?_map, setAt_get _ _ _ _ hj, setAt_get _ _ _ _ (by simpa using hj), List.getElem?_map]
+    split <;> simp
+  · have h1 : (FMInput.setAt l i a).length ≤ j := by rw [setAt_len]; omega
+    have h2 : (FMInput.setAt (l.map f) i (f a)).length ≤ j := by rw [setAt_len, List.length_map]; omega
+    rw [List.getElem?_map, List.getElem?_eq_none h1, List.getElem?_eq_none h2]; rfl
+
+theorem pvFold_map (f : Rat → Rat) (rows : List (Nat × Vec)) (b : List Rat) :
+    (rows.map fun p => (p.1, (⟨f p.2.x, f p.2.y⟩ : Vec))).foldl pvStep (b.map f) = (rows.foldl pvStep b).map f := by
+  induction rows generalizing b with
+  | nil => rfl
+  | cons r rows ih =>
+    rw [List.map_cons, List.foldl_cons, List.foldl_cons, ← ih]
+    congr 1
+    simp only [pvStep, setAt_map]
+
+theorem placeVelocities_map (f : Rat → Rat) (hf : f 0 = 0) (nrows : Nat) (rows : List (Nat × Vec)) :
+    placeVelocities nrows (rows.map fun p => (p.1, (⟨f p.2.x, f p.2.y⟩ : Vec))) = (placeVelocities nrows rows).map f := by
+  rw [placeVelocities_eq, placeVelocities_eq, ← pvFold_map, List.map_replicate, hf]
+
 end Forsys.C13
